@@ -150,6 +150,7 @@ func (s *storeRun) open() {
 
 // apply performs one captured write on the store under test and on the model.
 func (s *storeRun) apply(op *storeOp) {
+	progress.Add(1)
 	m := s.model
 	var err error
 	switch op.kind {
